@@ -291,7 +291,7 @@ func build(tier string) []*vkit.Scenario {
 							p, d := 2, 1
 							if thorough {
 								p, d = 3, 2
-							} else if chunk == 1 {
+							} else if chunk == 1 || unix {
 								p = 1
 							}
 							add(cfg{unix: unix, mode: m, k: k, chunk: chunk, w1: []call{a, b}, p: p, d: d})
